@@ -1,8 +1,6 @@
-"""Throw-away prototype: reference RREL evaluator vs textx.scoping.rrel.find."""
-import sys, random, collections
-from textx import metamodel_from_str, get_children, get_model, textx_isinstance
-from textx.scoping.rrel import find, parse
+"""Reference (set-semantics) RREL evaluator and the model family used by C11/C12."""
 import textx.scoping.rrel as R
+from textx import textx_isinstance
 
 GR = r'''
 Model: packages*=Package;
@@ -13,7 +11,15 @@ Attr: 'a' name=ID (':' type=[Class:FQN|^packages*.classes])?;
 Use: 'use' name=ID '=' pkg=[Package:FQN|^packages*];
 FQN: ID('.'ID)*;
 '''
-mm = metamodel_from_str(GR)
+_MM = None
+
+
+def metamodel():
+    global _MM
+    if _MM is None:
+        from textx import metamodel_from_str
+        _MM = metamodel_from_str(GR)
+    return _MM
 
 def gen_model(rnd, dup=False):
     names = ['a', 'b', 'c', 'd']
@@ -58,40 +64,8 @@ def gen_model(rnd, dup=False):
         txt += f'package {nm} {{ {pkg(0, [nm])} }}\n'
     return txt
 
-# ---- expression generator (text) ----
-ATTRS = ['packages', 'classes', 'methods', 'attrs', 'sup', 'type', 'uses', 'pkg', 'parent']
+ATTRS = ['packages', 'classes', 'methods', 'attrs', 'sup', 'type', 'uses', 'pkg']
 TYPES = ['Package', 'Class', 'Model']
-def gen_elem(rnd, depth):
-    c = rnd.random()
-    if c < 0.5:
-        a = rnd.choice(ATTRS[:-1])
-        k = rnd.random()
-        if k < 0.6:
-            return a
-        if k < 0.9:
-            return '~' + a
-        return "'" + rnd.choice('abcd') + "'~" + a
-    if c < 0.6:
-        return f'parent({rnd.choice(TYPES)})'
-    if depth < 2:
-        return '(' + gen_seq(rnd, depth + 1) + ')'
-    return rnd.choice(ATTRS[:-1])
-
-def gen_path(rnd, depth):
-    pre = rnd.choice(['', '', '', '^', '.', '..', '...'])
-    n = rnd.randint(0 if pre in ('.', '..', '...', '^') else 1, 3)
-    els = []
-    for _ in range(n):
-        e = gen_elem(rnd, depth)
-        if rnd.random() < 0.3:
-            e += '*'
-        els.append(e)
-    return pre + '.'.join(els)
-
-def gen_seq(rnd, depth=0):
-    if depth == 0 and rnd.random() < 0.5:
-        return rnd.choice(['^packages*.classes', 'packages*.classes', '^packages*.classes.methods', 'packages*.classes.(~sup)*.methods', '^classes,^packages*.classes', '.methods,..attrs', 'parent(Class).(~sup)*.attrs', '^(packages,classes)*', '~packages*.~classes.methods', 'packages*.classes.attrs.~type.methods', '^~classes.methods', '(..)*.classes', 'parent(Package).~classes.~sup.methods'])
-    return ','.join(gen_path(rnd, depth) for _ in range(rnd.choice([1, 1, 2, 3])))
 
 # ---- reference evaluator over textX's parsed tree (tree shape only; semantics are mine) ----
 def parents(o):
@@ -105,8 +79,9 @@ def root_of(o):
     return o
 
 class Ref:
-    def __init__(self, model):
+    def __init__(self, model, mm):
         self.model = model
+        self.mm = mm
     def starts_locally(self, n):
         if isinstance(n, (R.RRELParent, R.RRELDots)): return True
         if isinstance(n, R.RRELNavigation): return False
@@ -149,7 +124,7 @@ class Ref:
                     if hasattr(x, 'name') and x.name == rem[0]:
                         yield (x, rem[1:], path + (x,), False)
         elif isinstance(n, R.RRELParent):
-            t = mm[n.type]
+            t = self.mm[n.type]
             for p in parents(obj):
                 if textx_isinstance(p, t):
                     yield (p, rem, path, False)
@@ -231,82 +206,3 @@ class Ref:
             res.append(s)
         return res
 
-DUP = 0.0
-def main(seed, n):
-    rnd = random.Random(seed)
-    st = collections.Counter()
-    shown = 0
-    for it in range(n):
-        dup = rnd.random() < DUP
-        try:
-            m = mm.model_from_str(gen_model(rnd, dup))
-        except Exception as e:
-            st['model-fail'] += 1
-            continue
-        objs = get_children(lambda x: True, m)
-        for _ in range(6):
-            et = gen_seq(rnd)
-            if rnd.random() < 0.0:
-                et = '+p:' + et
-            try:
-                expr = parse(et)
-            except Exception as e:
-                st['expr-parse-fail'] += 1
-                continue
-            for _ in range(12):
-                o = rnd.choice(objs)
-                if rnd.random() < 0.7:
-                    t = rnd.choice(objs); chain = []
-                    while hasattr(t, 'name'):
-                        chain.insert(0, t.name); t = getattr(t, 'parent', None)
-                    names = chain[-rnd.randint(1, 3):] or ['a']
-                else:
-                    names = [rnd.choice('abcdfg') for _ in range(rnd.randint(1, 3))]
-                cls = rnd.choice([None, mm['Class'], mm['Package'], mm['Method'], None])
-                try:
-                    got = find(o, list(names), expr, cls, use_proxy=expr.use_proxy)
-                except RecursionError:
-                    st['impl-recursion'] += 1
-                    continue
-                except Exception as e:
-                    st['impl-exc:' + type(e).__name__] += 1
-                    if shown < 6:
-                        shown += 1; print('EXC', et, names, repr(e))
-                    continue
-                ref = Ref(m).results(expr, o, names, cls)
-                allr = [x for s in ref for x in s]
-                st['queries'] += 1
-                if got is None:
-                    if allr:
-                        st['INCOMPLETE'] += 1
-                        if shown < 6:
-                            shown += 1; print('INCOMPLETE', et, names, o, cls, [x[0] for x in allr][:3])
-                    else:
-                        st['none-ok'] += 1
-                else:
-                    tgt = got._tx_obj if expr.use_proxy else got
-                    if not any(tgt is x[0] for x in allr):
-                        st['UNSOUND'] += 1
-                        if shown < 6:
-                            shown += 1; print('UNSOUND', et, names, o, cls, tgt)
-                        continue
-                    first = next(s for s in ref if s)
-                    if not any(tgt is x[0] for x in first):
-                        st['PRECEDENCE'] += 1
-                        if shown < 6:
-                            shown += 1; print('PRECEDENCE', et, names, o, cls, tgt)
-                        continue
-                    if expr.use_proxy:
-                        pth = got._tx_path
-                        ok = pth[-1] is tgt and ("'" in et or [x.name for x in pth] == list(names))
-                        if not ok:
-                            st['PATH'] += 1
-                            if shown < 6:
-                                shown += 1; print('PATH', et, names, o, pth, [x[1] for x in allr if x[0] is tgt][:2])
-                            continue
-                    st['found-ok'] += 1
-    return st
-
-if __name__ == '__main__':
-    sys.setrecursionlimit(3000)
-    print(main(int(sys.argv[1]), int(sys.argv[2])))
